@@ -73,6 +73,9 @@ def isIntNotBool : Val → Bool | .int _ => true | _ => false
 def kwGet (kws : List (String × Val)) (k : String) (dflt : Val) : Val :=
   match kws.find? (·.1 == k) with | some (_, v) => v | Option.none => dflt
 
+/-- Python's `seq * k` -/
+def repSeq (l : List Val) (k : Int) : List Val := (List.replicate k.toNat l).flatten
+
 /-- the function library (same definitions as harness/lib.py) -/
 def interp : Interp Val := fun f args kws =>
   match f, args with
@@ -92,6 +95,13 @@ def interp : Interp Val := fun f args kws =>
   | "_neg", [a] => match asInt a with | some i => .ok (.int (-i)) | Option.none => .error .usage
   | "_eq", [a, b] => .ok (.bool (Val.beq a b))
   | "_ne", [a, b] => .ok (.bool (!(Val.beq a b)))
+  | "_add", [.tuple a, .tuple b] => .ok (.tuple (a ++ b))          -- sequence concatenation (not commutative)
+  | "_add", [.list a, .list b] => .ok (.list (a ++ b))
+  | "_add", [.str a, .str b] => .ok (.str (a ++ b))
+  | "_mul", [.tuple a, b] => (match asInt b with | some k => .ok (.tuple (repSeq a k)) | Option.none => .error .usage)
+  | "_mul", [.list a, b] => (match asInt b with | some k => .ok (.list (repSeq a k)) | Option.none => .error .usage)
+  | "_mul", [b, .tuple a] => (match asInt b with | some k => .ok (.tuple (repSeq a k)) | Option.none => .error .usage)
+  | "_mul", [b, .list a] => (match asInt b with | some k => .ok (.list (repSeq a k)) | Option.none => .error .usage)
   | op, [a, b] =>
     match asInt a, asInt b with
     | some x, some y =>
